@@ -370,6 +370,17 @@ def _analyze_command(
     )
     decisions.append(cmd_decision)
 
+    # The same command as bash reads it (-"exec", \\-delete, r\\m): a rule or handler that does not
+    # recognise the quoted spelling must not make the verdict more lenient
+    unquoted = [_remove_quotes(getattr(w, "value", str(w))) for w in node.words]
+    if unquoted != words:
+        unquoted_decision = _analyze_simple_command(
+            unquoted[base_idx:], config, cwd, remote=remote
+        )
+        order = ("allow", "ask", "deny")
+        if order.index(unquoted_decision.action) > order.index(cmd_decision.action):
+            decisions.append(unquoted_decision)
+
     return _combine(decisions)
 
 
@@ -589,6 +600,102 @@ def _get_word_value(word) -> str:
     else:
         value = getattr(word, "value", str(word))
     return _strip_quotes(value)
+
+
+_ANSI_C_ESCAPES = {
+    "a": "\a",
+    "b": "\b",
+    "e": "\x1b",
+    "E": "\x1b",
+    "f": "\f",
+    "n": "\n",
+    "r": "\r",
+    "t": "\t",
+    "v": "\v",
+    "\\": "\\",
+    "'": "'",
+    '"': '"',
+    "?": "?",
+}
+
+
+# \NNN, \xHH, \uHHHH and \UHHHHHHHH inside $'...'
+_ANSI_C_NUMERIC = re.compile(
+    r"([0-7]{1,3})|(?:x([0-9a-fA-F]{1,2})|u([0-9a-fA-F]{1,4})|U([0-9a-fA-F]{1,8}))"
+)
+
+
+def _remove_quotes(value: str) -> str:
+    """Bash quote removal: the word a program receives for this source text.
+
+    Handles '...', "...", $'...', $"..." and backslash escapes, so that -"exec", \\-exec
+    and $'-exec' all read -exec. A word with an expansion that has a quoting context of
+    its own ($(...), `...`, ${...}), or with an unclosed quote, only loses an outer pair.
+    """
+    if "$(" in value or "`" in value or "${" in value or "<(" in value or ">(" in value:
+        return _strip_quotes(value)
+    out: list[str] = []
+    i, n = 0, len(value)
+    while i < n:
+        ch = value[i]
+        if ch == "\\":
+            if i + 1 >= n:
+                out.append(ch)
+                i += 1
+                continue
+            if value[i + 1] != "\n":
+                out.append(value[i + 1])
+            i += 2
+        elif ch == "'":
+            end = value.find("'", i + 1)
+            if end < 0:
+                return _strip_quotes(value)
+            out.append(value[i + 1 : end])
+            i = end + 1
+        elif ch == '"' or (ch == "$" and value[i + 1 : i + 2] == '"'):
+            i += 1 if ch == '"' else 2
+            while i < n and value[i] != '"':
+                if value[i] == "\\" and i + 1 < n and value[i + 1] in '$`"\\\n':
+                    if value[i + 1] != "\n":
+                        out.append(value[i + 1])
+                    i += 2
+                else:
+                    out.append(value[i])
+                    i += 1
+            if i >= n:
+                return _strip_quotes(value)
+            i += 1
+        elif ch == "$" and value[i + 1 : i + 2] == "'":
+            i += 2
+            while i < n and value[i] != "'":
+                if value[i] == "\\" and i + 1 < n:
+                    esc = value[i + 1]
+                    numeric = _ANSI_C_NUMERIC.match(value, i + 1)
+                    if esc in _ANSI_C_ESCAPES:
+                        out.append(_ANSI_C_ESCAPES[esc])
+                        i += 2
+                    elif numeric:
+                        digits = next(g for g in numeric.groups() if g)
+                        code = int(digits, 8 if numeric.group(1) else 16)
+                        out.append(chr(code) if 0 < code < 0x110000 else "")
+                        i = numeric.end()
+                    elif esc == "c" and i + 2 < n:
+                        out.append(chr(ord(value[i + 2]) & 0x1F))
+                        i += 3
+                    else:
+                        # Any other character keeps its backslash
+                        out.append(value[i])
+                        i += 1
+                else:
+                    out.append(value[i])
+                    i += 1
+            if i >= n:
+                return _strip_quotes(value)
+            i += 1
+        else:
+            out.append(ch)
+            i += 1
+    return "".join(out)
 
 
 def _has_inner_quoting(value: str) -> bool:
